@@ -843,3 +843,64 @@ pub async fn state_digest_opts<C: Config>(engine: &Arc<Engine<C>>, p: &Program, 
     }
     parts.join(" ; ")
 }
+
+// ------------------------------------------------------------------------------------------
+// state-invariant oracle on a digest (model-free consequences of the proved engine invariant), for runs that have no
+// model run (fault injection C05, crash prefixes / restarts C08 / C07, concurrent rounds C02); acyclic programs.
+//   value: every node verified in the current epoch (`v1`) stores the from-scratch value for the committed inputs
+//   back:  the backward-edge sets are exactly the inverse of the recorded dependencies
+//   tfc:   for every `v1` node, tfc = union over its recorded deps d of ({d} if d is a firewall else tfc(d)); [] for inputs / externals
+// The same digests are written, as `#D <digest>` lines after the op lines of a case, for the Lean checker `drv_engine inv`.
+// ------------------------------------------------------------------------------------------
+
+#[derive(Clone, Debug, Default)]
+pub struct DigestNode { pub kind: String, pub verified: bool, pub val: Option<i64>, pub deps: Vec<u32>, pub dirty: Vec<u32>, pub tfc: Vec<u32>, pub pend: bool, pub back: Vec<u32> }
+
+pub fn parse_digest(d: &str) -> BTreeMap<u32, DigestNode> {
+    let list = |s: &str| -> Vec<u32> { s.trim_start_matches(|c| c != '[').trim_start_matches('[').trim_end_matches(']').split(',').map(|x| x.trim_matches(|c| c == '{' || c == '}')).filter(|x| !x.is_empty() && *x != "-" && *x != "?").filter_map(|x| x.parse().ok()).collect() };
+    let mut out = BTreeMap::new();
+    for part in d.split(" ; ") {
+        let f: Vec<&str> = part.trim().split(':').collect();
+        if f.len() < 10 { continue; }
+        let Ok(k) = f[0].parse::<u32>() else { continue };
+        out.insert(k, DigestNode { kind: f[1].to_string(), verified: f[2] == "v1", val: f[3].strip_prefix("val=").and_then(|x| x.parse().ok()), deps: list(f[4]), dirty: list(f[6]), tfc: list(f[7]), pend: f[8] == "pend=1", back: list(f[9]) });
+    }
+    out
+}
+
+/// every read of every executor goes to a lower key
+pub fn is_acyclic(p: &Program) -> bool {
+    p.nodes.iter().enumerate().all(|(k, n)| { let mut r = vec![]; n.expr.reads(&mut r); r.iter().all(|x| (*x as usize) < k) })
+}
+
+/// `value_of(k)`: the from-scratch value of key k for the committed inputs, None = not defined / not known (not judged).
+/// Returns (which, description) for every violated consequence (at most one per kind and node).
+pub fn state_invariant_check(p: &Program, digest: &str, value_of: &dyn Fn(u32) -> Option<i64>) -> Vec<(&'static str, String)> {
+    let nodes = parse_digest(digest);
+    let mut out = vec![];
+    let acyclic = is_acyclic(p);
+    for (k, n) in &nodes {
+        if n.verified { if let (Some(v), Some(e)) = (n.val, value_of(*k)) { if v != e { out.push(("value", format!("node {k} is verified in the current epoch but stores {v}; the from-scratch value for the committed inputs is {e}"))); } } }
+        for c in &n.deps {
+            match nodes.get(c) { None => out.push(("back", format!("node {k} records the dependency {c}, which has no node"))),
+                Some(cn) => if !cn.back.contains(k) { out.push(("back", format!("node {k} records the dependency {c}, but {k} is not in the backward-edge set of {c} ({:?})", cn.back))); } }
+        }
+        for c in &n.back {
+            match nodes.get(c) { None => out.push(("back", format!("the backward-edge set of {k} contains {c}, which has no node"))),
+                Some(cn) => if !cn.deps.contains(k) { out.push(("back", format!("the backward-edge set of {k} contains {c}, but {c} records the dependencies {:?}", cn.deps))); } }
+        }
+        if acyclic && n.verified {
+            let mut exp: BTreeSet<u32> = BTreeSet::new();
+            let mut known = true;
+            for d in &n.deps { match nodes.get(d) { Some(dn) => { if dn.kind == "fw" { exp.insert(*d); } else { exp.extend(dn.tfc.iter().copied()); } } None => known = false } }
+            let got: BTreeSet<u32> = n.tfc.iter().copied().collect();
+            if known && got != exp { out.push(("tfc", format!("node {k} (verified) has the transitive firewall set {:?}; its recorded dependencies {:?} give {:?}", got, n.deps, exp))); }
+        }
+    }
+    out
+}
+
+/// the inputs / external values a digest shows (stored value of every `in` / `ex` node)
+pub fn digest_leaf_values(digest: &str) -> BTreeMap<u32, i64> {
+    parse_digest(digest).into_iter().filter(|(_, n)| n.kind == "in" || n.kind == "ex").filter_map(|(k, n)| n.val.map(|v| (k, v))).collect()
+}
